@@ -283,11 +283,16 @@ def r5(run, ctx):
         for st in t.finalbody for c in ast.walk(st))]
     run.check('R5', bool(fin), 'the unlink is in the finally of the run loop', m, un[0].ast)
     # final statement: sys.exit(0)
-    last = m.node.body[-1]
-    ok = isinstance(last, ast.Expr) and isinstance(last.value, ast.Call) and \
-        dotted(last.value.func) == 'sys.exit' and last.value.args and \
-        astq.const_value(last.value.args[0], None) == 0
-    run.check('R5', ok, 'a completed shutdown exits with status 0', m, last,
+    # every normal way out after the run loop passes sys.exit(0)
+    exit0 = [x for x in ctx.live_nodes(m) if any(
+        dotted(c.func) == 'sys.exit' and c.args and astq.const_value(c.args[0], None) == 0
+        for c in x.calls())]
+    ok = False
+    for n in startn:
+        r = cfg.reach(n, avoid=exit0, labels_excluded=('exc', 'raise', 'reraise'))
+        ok = cfg.exit.id not in r and bool(exit0)
+    run.check('R5', ok, 'a completed shutdown exits with status 0', m,
+              exit0[-1].ast if exit0 else m.node,
               'after a clean shutdown the daemon does not exit with status 0')
     # exit statuses after the pid file exists
     created = ctx.nodes_calling(m, [PF + 'create'])
